@@ -4786,6 +4786,12 @@ namespace awkward {
     }
 
     else {
+      if (advanced.length() != carry.length()) {
+        throw std::invalid_argument(
+          std::string("cannot fit the pairing of an earlier array index (length ")
+          + std::to_string(advanced.length()) + std::string(") to this dimension (length ")
+          + std::to_string(carry.length()) + std::string(")") + FILENAME(__LINE__));
+      }
       Index64 nextcarry(carry.length());
       struct Error err = kernel::NumpyArray_getitem_next_array_advanced_64(
         kernel::lib::cpu,   // DERIVE
